@@ -2,6 +2,10 @@ import QP.Model.PT
 import QP.Proofs.PTArith
 import QP.Proofs.PTTop
 import QP.Proofs.PTTopW
+import QP.Proofs.PTTop2W
+import QP.Proofs.PTTop3W
+import QP.Proofs.PTSingle
+import QP.Proofs.PTDurTop
 /-!
 # C04 — durations are exact and the template, the program and its pieces agree on them
 
@@ -12,9 +16,11 @@ Full statement (DESIGN 4/C04): for every template, `createProgram … = .ok (som
 Proved here: the program-side equalities for **every** `Loop` (`duration_eq_pieces`, `duration_eq_play`,
 `no_accumulation`), the closed form of `ForLoopPulseTemplate.duration` for every integer range with
 `step ≠ 0` (`forloop_duration_closed_form`, with `range_spec` pinning down Python's `range`), and
-`duration_agree_partial` (program duration = duration of the denoted pulse) for the stage-1 constructor
-subset.  `templateDuration = prog.duration` for all templates and `(toWaveform prog).duration` are
-established by the correspondence only (`toWaveform` lemmas live with C05).
+`duration_agree_partial` (program duration = duration of the denoted pulse) for `Stage3R` — the proved atoms
+composed by ALL seven composite constructors, no positivity assumption —, `duration_agree_single_partial` for every
+`to_single_waveform` set (C05), and `template_duration_agree_partial`: `templateDuration = prog.duration` for all
+composite constructors over atoms at which it holds (`Live`; proved for `ConstantPT` / `FunctionPT` that keep a
+channel).  `(toWaveform prog).duration` is C05's `toWaveform_duration`.
 All durations are `Rat`: there is no rounding in the model at all — that the implementation computes the same
 rationals is what the correspondence run establishes on every check.
 -/
@@ -58,25 +64,84 @@ theorem no_accumulation (n : Nat) (ms : List Window) (cs : List Loop) :
 theorem empty_is_zero (n : Nat) (ms : List Window) : (Loop.mk n none ms []).duration = 0 := by
   simp [duration_none, Loop.durationList]
 
-/-- **durations agree (partial)**: for stage-1 templates the program lasts exactly as long as the denoted pulse -/
-theorem duration_agree_partial {pt : PT} (hs : Stage1 pt) (params : List (String × Rat))
+/-- **durations agree (partial)**: for `Stage3R` templates (all composite constructors over the proved atoms; no
+positivity assumption, no PF-11 exclusion) the program lasts exactly as long as the denoted pulse -/
+theorem duration_agree_partial {pt : PT} (hs : Stage3R pt) (params : List (String × Rat))
     (mm : Option (List (MName × Option MName))) (cm : List (Chan × Option Chan)) (prog : Loop) (P : Pulse)
     (hprog : createProgram pt params mm cm [] = .ok (some prog))
-    (hden : denoteTop pt params mm cm = .ok P) (hpos : prog.allPos) :
+    (hden : denoteTop pt params mm cm = .ok P) :
     prog.duration = P.dur ∧ prog.piecesSum = P.dur ∧ sumList (prog.play.map Wf.duration) = P.dur := by
-  have h := (createProgram_rel hs params mm cm prog P hprog hden hpos).1
+  have h := (createProgram_relWT_basic hs.basic params mm cm (some prog) P hprog hden).1
   exact ⟨h, by rw [← duration_eq_pieces, h], by rw [← duration_eq_play, h]⟩
 
-/-- **durations agree incl. time reversal (partial)**: stage-1 subset extended by `TimeReversalPT`, no positivity
+/-- **durations agree incl. the empty program (partial)**: `Stage3R`, no positivity
 assumption; an empty program corresponds to a denoted duration of zero. -/
-theorem duration_agree_reversal_partial {pt : PT} (hs : Stage1R pt) (params : List (String × Rat))
+theorem duration_agree_reversal_partial {pt : PT} (hs : Stage3R pt) (params : List (String × Rat))
     (mm : Option (List (MName × Option MName))) (cm : List (Chan × Option Chan)) (prog? : Option Loop) (P : Pulse)
     (hprog : createProgram pt params mm cm [] = .ok prog?) (hden : denoteTop pt params mm cm = .ok P) :
     (match prog? with | some prog => prog.duration | none => 0) = P.dur := by
-  have := createProgram_relW hs params mm cm prog? P hprog hden
+  have := createProgram_relWT_basic hs.basic params mm cm prog? P hprog hden
   cases prog? with
   | some prog => exact this.1
   | none => exact this.1.symm
+
+/-- **durations for every `to_single_waveform` set** (C05 `collapse_invariant_partial` on top of
+`duration_agree_partial`): all composite constructors incl. time reversal, outside C05's exclusion class `cleanW`,
+under C05's output-checkable side conditions. -/
+theorem duration_agree_single_partial {pt : PT} (hs : Stage3R pt) (params : List (String × Rat))
+    (mm : Option (List (MName × Option MName))) (cm : List (Chan × Option Chan)) (S : List String)
+    (prog0 progS : Loop) (P : Pulse)
+    (h0 : createProgram pt params mm cm [] = .ok (some prog0))
+    (hnn0 : QP.C05.allLeaves QP.C05.nonnegW prog0 = true)
+    (hS : createProgram pt params mm cm S = .ok (some progS))
+    (hden : denoteTop pt params mm cm = .ok P)
+    (hclean : QP.C05.cleanW S false false pt = true)
+    (c : Chan) (ht0 : QP.C05.allLeaves (QP.C05.tidy c) prog0 = true)
+    (htS : QP.C05.allLeaves (QP.C05.tidy c) progS = true) :
+    progS.duration = P.dur :=
+  (createProgram_single_W hs params mm cm S prog0 progS P h0 hnn0 hS hden hclean c ht0 htS).1
+
+/-- **`pt.duration` at the parameters = duration of the program** (C04 full strength, `_partial`): for every template
+built from the proved atoms by ALL composite constructors (`Stage3R`: sequence, repetition, iteration, mapping, time
+reversal, parallel channels, arithmetic with a scalar), whenever the instance is `Live` — the statement holds at its
+atoms in the scopes they are instantiated in (`DurAtom`; `template_duration_const`, `template_duration_func` give
+sufficient conditions: a channel is kept, no negative duration), repetition counts are exact naturals and loop bounds
+exact integers — the symbolic duration expression of the class, evaluated at the parameters, is the duration of the
+program `create_program` returns (0 if it returns none). -/
+theorem template_duration_agree_partial {pt : PT} (hs : Stage3R pt) (params : List (String × Rat))
+    (mm : Option (List (MName × Option MName))) (cm : List (Chan × Option Chan)) (prog? : Option Loop) (P : Pulse)
+    (d : Rat) (hl : Live pt (.dict params) (topCm pt cm))
+    (hprog : createProgram pt params mm cm [] = .ok prog?) (hden : denoteTop pt params mm cm = .ok P)
+    (hd : templateDuration pt (.dict params) = .ok d) :
+    d = (match prog? with | some prog => prog.duration | none => 0) :=
+  templateDuration_program hs params mm cm prog? P d hl hprog hden hd
+
+/-- … and of the denoted pulse, in any scope and under any mappings (all 7 composite constructors, any atoms for
+which it holds); an empty pulse lasts 0 -/
+theorem template_duration_denoted {pt : PT} {σ : Scope} {cm : List (Chan × Option Chan)} (hl : Live pt σ cm)
+    (mm : List (MName × Option MName)) (d : Rat) (P : Pulse)
+    (hd : templateDuration pt σ = .ok d) (hden : denote pt σ mm cm = .ok P) :
+    d = P.dur ∧ (P.chans = [] → P.dur = 0) := live_dur hl mm d P hd hden
+
+/-- the atom statement for `ConstantPT`: it keeps a channel and its duration is not negative -/
+theorem template_duration_const (id : Option String) (dur : Expr) (amps : List (Chan × Expr)) (meas : List MeasDecl)
+    (σ : Scope) (cm : List (Chan × Option Chan))
+    (hkeep : ∃ ch e o, (ch, e) ∈ amps ∧ cm.lookup ch = some (some o))
+    (hnn : ∀ d, σ.eval dur = .ok d → 0 ≤ d) : Live (.const id dur amps meas) σ cm :=
+  Live.atom (durAtom_const id dur amps meas σ cm hkeep hnn)
+
+/-- the atom statement for `FunctionPT`: it keeps its channel -/
+theorem template_duration_func (id : Option String) (ch : Chan) (dur e : Expr) (meas : List MeasDecl)
+    (cons : List Expr) (σ : Scope) (cm : List (Chan × Option Chan)) (o : Chan)
+    (hkeep : cm.lookup ch = some (some o)) : Live (.func id ch dur e meas cons) σ cm :=
+  Live.atom (durAtom_func id ch dur e meas cons σ cm o hkeep)
+
+/-- the hypotheses matter: a `ConstantPT` all of whose channels are dropped has `duration = 2` and no program -/
+example : templateDuration exPt (.dict []) = .ok 2 ∧ denote exPt (.dict []) [] [("A", none)] = .ok Pulse.empty := by
+  constructor
+  · simp [templateDuration, exPt, Scope.eval, Expr.eval]
+  · norm_num [denote, exPt, Scope.eval, Expr.eval, chanLookup, dictOfList, List.filterMapM_cons, List.filterMapM_nil,
+      bind, Except.bind, pure, Except.pure]
 
 /-! ## Non-vacuity -/
 
